@@ -7,10 +7,11 @@ EXTENDS Codec, TLC, Json
 CONSTANTS MaxLen8, MaxLen16, Mode     \* Mode: "u8" | "u16"
 VARIABLE s
 \* one representative of every UTF-8 byte class (and both ends of the ranges that matter)
-A8 == {65, 128, 143, 144, 159, 160, 191, 192, 193, 194, 223, 224, 225, 236, 237, 238, 239, 240, 241, 243, 244, 245, 255}
-A8small == {65, 128, 144, 160, 191, 193, 194, 224, 225, 237, 239, 240, 241, 244, 245, 255, 143}
+A8 == {65, 128, 143, 144, 159, 160, 187, 189, 191, 192, 193, 194, 223, 224, 225, 236, 237, 238, 239, 240, 241, 243, 244, 245, 255}
+\* 187, 189: EF BB BF is U+FEFF, EF BF BD is U+FFFD (valid text that looks like the decoder's own replacement output)
+A8small == {65, 128, 144, 160, 187, 189, 191, 193, 194, 224, 225, 237, 239, 240, 241, 244, 245, 255, 143}
 \* BMP below / above the surrogates, both surrogate range ends, NUL, max
-A16 == {0, 65, 233, 55295, 55296, 56319, 56320, 57343, 57344, 65535}
+A16 == {0, 65, 233, 55295, 55296, 56319, 56320, 57343, 57344, 65279, 65533, 65535}
 Alpha == IF Mode = "u8" THEN A8small ELSE A16
 MaxL == IF Mode = "u8" THEN MaxLen8 ELSE MaxLen16
 Init == s = <<>>
